@@ -42,6 +42,15 @@ func newSweeper(t *gen.Tools, tag string) (*sweeper, func()) {
 
 // run generates every text with the given flags (the -o directory is always "o") and calls f (concurrently).
 func (s *sweeper) run(texts []string, flags []string, wantLex, wantPar bool, f func(o *GenOut)) {
+	s.runOpt(texts, flags, wantLex, wantPar, f)
+}
+
+// runKeep is run for callbacks that keep the GenOut (tables already read; the directory is removed all the same).
+func (s *sweeper) runKeep(texts []string, flags []string, wantLex, wantPar bool, f func(o *GenOut)) {
+	s.runOpt(texts, flags, wantLex, wantPar, f)
+}
+
+func (s *sweeper) runOpt(texts []string, flags []string, wantLex, wantPar bool, f func(o *GenOut)) {
 	s.mu.Lock()
 	base := s.n
 	s.n += len(texts)
